@@ -442,6 +442,18 @@ def guard_of(fn, parents):
     return '(GMaskNotFound %s)' % cstr(r.args[0].value)
 
 
+def rollback_of_failed_item(fname, call, parents):
+    """exactly: inside KmipEngine._process_batch, the statement `self._data_session.rollback()` (no arguments) that is
+    the whole body of `if error_occurred:` (no else), inside the loop over the batch items"""
+    if fname != '_process_batch' or call.args or call.keywords or len(parents) < 3:
+        return False
+    stmt, guard = parents[-1], parents[-2]
+    return (isinstance(stmt, ast.Expr) and stmt.value is call
+            and isinstance(guard, ast.If) and isinstance(guard.test, ast.Name) and guard.test.id == 'error_occurred'
+            and guard.body == [stmt] and not guard.orelse
+            and any(isinstance(p, ast.For) for p in parents))
+
+
 def gen_handler_access_ops(repo):
     enums = importlib.import_module('kmip.core.enums')
     path = Path(repo) / 'kmip' / 'services' / 'server' / 'engine.py'
@@ -511,6 +523,11 @@ def gen_handler_access_ops(repo):
                 elif n.func.attr == 'add':
                     adds += 1
                 elif n.func.attr in ('commit',):
+                    pass
+                elif n.func.attr == 'rollback' and rollback_of_failed_item(name, n, parents_of[id(n)]):
+                    # _process_batch: `if error_occurred: self._data_session.rollback()` - discards what the failed item
+                    # left uncommitted in the request's own session; it can neither reveal nor change anything that was
+                    # committed, so it plays no part in the access decision (argued in notes/C03.md)
                     pass
                 else:
                     raise Unrecognised('%s: self._data_session.%s' % (name, n.func.attr))
